@@ -168,6 +168,32 @@ func exprsStream(r *Run) {
 		}
 	}
 
+	// ---- 4b. a filter argument may itself be a parenthesised pipeline: nested applications must not disturb the
+	// outer pipeline (each pair: the nested form, and the same steps taken one at a time through assign) ----
+	{
+		env := map[string]*V{"x": VStr("ab"), "y": VStr("Cd"), "z": VStr("eF"), "nums": VAnys(VInt(0, 1), VInt(0, 2))}
+		pairs := [][2]string{
+			{"{{ x | upcase | append: (y | append: z) }}", "{% assign t1 = y | append: z %}{% assign t0 = x | upcase %}{{ t0 | append: t1 }}"},
+			{"{{ x | append: (y | upcase) | append: (z | downcase) }}", "{% assign t1 = y | upcase %}{% assign t2 = z | downcase %}{{ x | append: t1 | append: t2 }}"},
+			{"{{ x | upcase | replace: (y | slice: 0, 1 | downcase | upcase | replace: 'C', 'A'), (z | upcase) }}", "{% assign t1 = y | slice: 0, 1 | downcase | upcase | replace: 'C', 'A' %}{% assign t2 = z | upcase %}{% assign t0 = x | upcase %}{{ t0 | replace: t1, t2 }}"},
+			{"{{ x | append: y | prepend: (z | append: (x | upcase)) }}", "{% assign t2 = x | upcase %}{% assign t1 = z | append: t2 %}{{ x | append: y | prepend: t1 }}"},
+			{"{{ (x | append: y) | upcase | append: (z | size) }}", "{% assign t0 = x | append: y %}{% assign t1 = z | size %}{{ t0 | upcase | append: t1 }}"},
+			{"{{ x | upcase | append: (y | append: (z | append: x)) | downcase }}", "{% assign t2 = z | append: x %}{% assign t1 = y | append: t2 %}{{ x | upcase | append: t1 | downcase }}"},
+			{"{{ nums | join: (y | upcase) | append: (z | downcase) | split: (y | upcase) | size }}", "{% assign t1 = y | upcase %}{% assign t2 = z | downcase %}{{ nums | join: t1 | append: t2 | split: t1 | size }}"},
+			{"{% if (x | append: (y | downcase)) contains 'bc' %}T{% else %}F{% endif %}{% assign q = x | upcase | append: (y | append: z) %}{{ q }}", "{% assign t1 = y | downcase %}{% assign t0 = x | append: t1 %}{% if t0 contains 'bc' %}T{% else %}F{% endif %}{% assign t2 = y | append: z %}{% assign q = x | upcase | append: t2 %}{{ q }}"},
+		}
+		for _, pr := range pairs {
+			if !r.Mine() {
+				continue
+			}
+			r1 := run(engineCfg{}, pr[0], env, "nested-pipeline")
+			r2 := run(engineCfg{}, pr[1], env, "nested-pipeline-assign")
+			if r1 != r2 {
+				r.Violate("C08", "pipeline-equals-assign-decomposition", renderCaseLine(engineCfg{}, "", 0, pr[0], env), fmt.Sprintf("%q => %s ; stepwise %q => %s", pr[0], r1, pr[1], r2))
+			}
+		}
+	}
+
 	// ---- 5. generated pipelines: x | f: a | g  ==  assign t = x | f: a ; {{ t | g }}  and whitespace variants ----
 	n := 2500
 	if r.Tier == "thorough" {
